@@ -263,6 +263,64 @@ def _nan_task(task, p):
     p.note_add("nan_placements", len(placements))
 
 
+def dim_sequences(ctx):
+    """History on ONE object: every sequence of up to three steps over {aggregate along time, aggregate along level
+    (sum / mean, with and without begin), relabel the time axis in place}; every aggregation must yield exactly what
+    the same call yields on a freshly built object with the current labels (the accessor object lives as long as
+    the DataArray it sits on)."""
+    import itertools
+    import pandas as pd
+    import xarray as xr
+    sub = "dim_sequences"
+    vals = (np.arange(5 * 4 * 2).reshape(5, 4, 2) * 1.5 - 7.0)
+    vals[1, 2, 0] = np.nan
+    vals[3, 0, 1] = np.nan
+
+    def build(shift):
+        time = pd.date_range("2000-01-01", periods=5, freq="10D") + pd.Timedelta(days=shift)
+        return xr.DataArray(vals.copy(), dims=("time", "level", "x"), coords={"time": time, "level": [10, 20, 30, 40]})
+
+    calls = {
+        "sum along time": lambda d: list(d.hdc.iteragg.sum(n=2, dim="time")),
+        "mean along level": lambda d: list(d.hdc.iteragg.mean(n=2, dim="level")),
+        "sum along level from 30": lambda d: list(d.hdc.iteragg.sum(n=2, dim="level", begin=30)),
+        "mean along time from the 3rd step": lambda d: list(d.hdc.iteragg.mean(n=3, dim="time", begin=d.time.values[2])),
+        "full along level": lambda d: list(d.hdc.iteragg.full(n=3, dim="level")),
+    }
+    actions = list(calls) + ["relabel time"]
+
+    def run_call(name, d):
+        try:
+            return ("ok", calls[name](d))
+        except Exception as e:  # noqa: BLE001
+            return ("raise", type(e).__name__)
+
+    nseq = 0
+    for k in (1, 2, 3):
+        for seq in itertools.product(actions, repeat=k):
+            if seq[-1] == "relabel time":
+                continue
+            obj, shift = build(0), 0
+            nseq += 1
+            for step, a in enumerate(seq):
+                if a == "relabel time":
+                    shift += 1
+                    obj["time"] = obj.time.values + np.timedelta64(1, "D")
+                    continue
+                got, exp = run_call(a, obj), run_call(a, build(shift))
+                ok = got[0] == exp[0] and (got[1] == exp[1] if got[0] == "raise" else
+                                           (len(got[1]) == len(exp[1]) and all(g.identical(e) for g, e in zip(got[1], exp[1]))))
+                ctx.count(sub, evaluations=1, states=1, transitions=1, traces_validated_against_impl=1, nontrivial=int(step > 0))
+                if not ok:
+                    ctx.violation(sub, {"history": list(seq[:step + 1])}, {"kind": "dimseq"},
+                                  f"on one object, after the history {list(seq[:step])} the call '{a}' "
+                                  f"{'raises ' + got[1] if got[0] == 'raise' else 'yields ' + str(len(got[1])) + ' windows'} that differ from the same call on a fresh "
+                                  f"object ({'raises ' + exp[1] if exp[0] == 'raise' else str(len(exp[1])) + ' windows'}; values, coordinates or agg_* attributes)")
+                    break
+    ctx.note("dim_sequences", nseq)
+    ctx.sample(sub, {"actions": actions, "depth": 3, "cube": "(time 5, level 4, x 2) float with NaN"})
+
+
 def dtypes(ctx):
     """Cubes of narrow integer and boolean dtypes: the sums are the arithmetic sums of the windows (no wrap in the
     cube's own dtype), the means their means, for every n / begin / end on a short axis."""
@@ -338,6 +396,7 @@ def run(ctx):
     ctx.pmap(_nan_task, [(6, "time"), (6, "numeric"), (4, "time"), (4, "numeric")])
     misc(ctx)
     dtypes(ctx)
+    dim_sequences(ctx)
     from . import spell_common
     spell_common.run(ctx, "C19")
 
@@ -355,5 +414,7 @@ def replay(sub, case, p):
         check_config(p, L, kind, tuple(case["nan"]) if isinstance(case["nan"], list) else case["nan"], case["n"], cands[case["begin"]], cands[case["end"]], case["method"], case["func"], {})
     elif case.get("kind") == "dtypes":
         dtypes(p)
+    elif case.get("kind") == "dimseq":
+        dim_sequences(p)
     else:
         misc(p)
